@@ -49,6 +49,7 @@ fn tp_peer() -> Tp {
         max_uni: 1,
         max_bi: 2,
         dgram_send_buf: None,
+        idle_secs: 120,
     }
 }
 
